@@ -86,3 +86,43 @@ def replay(path):
     r = tlc.pipe_trace(wd, "replay", path)
     print("accepted" if r["ok"] else "REJECTED: " + pipe.explain(r, path))
     return 0 if r["ok"] else 1
+
+
+def run_repo_tests(ck, runs, perturb=30):
+    """The repository's own test programs (TESTING/p?drive.c, unmodified) as trace generators: every
+    factorization they perform is recorded through the hooks and validated against SluPipeTrace.
+    runs = list of (precision, argument list)."""
+    out = os.path.join(ck.dir, "repotests")
+    os.makedirs(out, exist_ok=True)
+    wd = os.path.join(ck.dir, "tlc")
+    tlc.stage(wd)
+    total = ok = 0
+    for k, (prec, args) in enumerate(runs):
+        rc, stream = pipe.run_repo_test(prec, args, out, "t%d" % k, perturb=perturb)
+        key = "repotest:p%stest %s" % (prec, " ".join(args))
+        if rc != 0 or not os.path.exists(stream):
+            ck.case(key)
+            ck.violation(key, "the repository's test driver p%stest %s ended with status %s when run with the hooks on" % (prec, " ".join(args), rc))
+            continue
+        segs = pipe.prepare(stream)
+        if len(segs) == 1 and segs[0] == stream:
+            segs = [stream]
+
+        def one(f):
+            return f, tlc.pipe_trace(wd, "rt%d_%s" % (k, os.path.basename(f).replace(".", "_")), f)
+        for f, r in common.pmap(one, segs):
+            total += 1
+            ck.model(r.get("distinct", 0), r.get("generated", 0))
+            ck.case(key + ":" + os.path.basename(f))
+            if r["ok"]:
+                ok += 1
+                ck.traces()
+                try:
+                    os.remove(f)
+                except OSError:
+                    pass
+            else:
+                ck.violation(key + ":seg", "a factorization performed by p%stest %s is not a behaviour of SluPipe: %s" % (prec, " ".join(args), pipe.explain(r, f)),
+                             {"trace": f})
+    ck.notes["repository_test_factorizations_validated"] = ck.notes.get("repository_test_factorizations_validated", 0) + ok
+    ck.notes["repository_test_factorizations_recorded"] = ck.notes.get("repository_test_factorizations_recorded", 0) + total
